@@ -871,7 +871,7 @@ func ruleCancel(p *Prog, r *RuleResult) {
 		})
 		// (e) non-cancel counter writes must hold the token
 		for _, f := range []*ssa.Function{s.fn, d} {
-			acq := s.acquireEdges(f)
+			_ = s.acquireEdges
 			var k keyer
 			for _, w := range s.counterWrites(f) {
 				if isCancelStore(w) {
@@ -887,18 +887,14 @@ func ruleCancel(p *Prog, r *RuleResult) {
 					r.ok(key+" CAS(id-1 -> id)", p.IPos(w))
 					continue
 				}
-				okStore := false
+				// A plain Store(id) - even by the token holder, even right after a Load that saw id-1 - can overwrite the
+				// cancel value that a task with a smaller id stores concurrently when its decoding fails: the failure is
+				// still reported once, but the counter no longer says "cancelled" and the next call carries on with the
+				// blocks after the failed one. Only a compare-and-swap from id-1 is safe.
 				if isAtomic(c, "StoreInt32") && len(c.Args) == 2 && s.isCurID(c.Args[1]) {
-					for _, e := range acq {
-						if edgeDominates(f, e, w.Block()) {
-							okStore = true
-						}
-					}
-				}
-				if okStore {
-					r.ok(key+" Store(id) under counter == id-1", p.IPos(w))
+					r.fail(key, p.IPos(w), "the shared counter is advanced with a plain Store(id): it can overwrite the cancel value stored concurrently by a failing task with a smaller id, so a later call resumes after the failed block instead of staying failed (use CompareAndSwap(id-1, id))")
 				} else {
-					r.fail(key, p.IPos(w), "the shared counter is advanced without holding the token (not a CAS from id-1, not dominated by counter == id-1): it can overwrite a cancel or reorder tasks")
+					r.fail(key, p.IPos(w), "the shared counter is advanced without holding the token (not a CAS from id-1): it can overwrite a cancel or reorder tasks")
 				}
 			}
 		}
